@@ -296,6 +296,11 @@ def run(ctx, vlib):
     # the shortest failing inputs make the best replays
     failing = sorted(r["failing"], key=lambda f: (len(f["case"]), f["case"]))[:3]
     diffs = r["diffs"][:20]
+    if inv is None:
+        # no fresh inventory (the translator failed, or VERIF_NO_REGEN=1): a broken tie, not a pass
+        diffs.append(dict(driver="inventory", case="tools/inventory.py regenerate", implementation="no inventory of the current source",
+                          model="coq/InvGenerated.v as stored", judge="TIE-BROKEN",
+                          why="the translator did not run (%s): Properties_C20 was checked against a stale generated file" % (IC.REGEN_ERROR or "VERIF_NO_REGEN=1")))
 
     # ---- known findings: witness replay.  A case ending in " *" is an axis: some position of it (all of them were
     # enumerated above) must show the listed answer — used where the position depends on the allocator's behaviour.
